@@ -42,6 +42,10 @@ SCENARIOS = {
     # one byte (231), and the name itself is as long as a name can be (255)
     "long_names": [{"p": "r/d/" + "A" * 255, "k": "file", "c": ["base", 200, 1]}, {"p": "r/d/" + "B" * 255, "k": "file", "c": ["base", 200, 1]},
                    {"p": "r/e/" + "C" * 230, "k": "file", "c": ["base", 200, 1]}, {"p": "r/e/" + "D" * 231, "k": "file", "c": ["base", 200, 1]}],
+    # long paths of two-byte characters, in two alignments (every fixed byte offset falls inside a character in one of them)
+    "long_unicode": [{"p": "r/d" + "\u00e9" * 100 + "/a", "k": "file", "c": ["base", 300, 1]},
+                     {"p": "r/dd" + "\u00e9" * 100 + "/b", "k": "file", "c": ["base", 300, 1]},
+                     {"p": "r/e" + "\u017c" * 90 + "/ddd" + "\u00e9" * 60 + "/c", "k": "file", "c": ["base", 300, 1]}],
 }
 OPS = ["remove", "link", "softlink", "dedupe_emulated", "dedupe_native", "move_rename", "move_copy", "move_known_mount",
        "move_occupied"]   # move_occupied: every destination path already holds an unrelated file
